@@ -229,7 +229,7 @@ pub fn run(ctx: &Ctx) -> i32 {
             let (ai, m) = arr_cases[k];
             let path = &sh.arrays[ai];
             let case = format!("{name} list {} {:?}", path_str(path), m);
-            ctx.case("mutated-list", &case, || {
+            ctx.case(&format!("mutated-list:{}:{:?}", path_kind(path), m), &case, || {
                 let Some(t) = mutate_array(&j0, path, m) else { return Ok(String::new()) };
                 let Ok(p) = serde_json::from_value::<ProofWithPublicInputs<F, PC, D>>(t) else { return Ok("not-constructible".into()) };
                 differential(pair, vo, &p, &format!("list:{}:{:?}", path_kind(path), m))
